@@ -643,9 +643,19 @@ impl TInputProtocol for TBinaryProtocol<&mut Bytes> {
 
     #[inline]
     fn read_bytes(&mut self) -> Result<Bytes, ThriftException> {
-        let len = self.trans.read_i32()?;
+        let len = self.trans.read_i32()? as usize;
+        if len > self.trans.len() {
+            return Err(new_protocol_exception(
+                ProtocolExceptionKind::InvalidData,
+                format!(
+                    "length {} exceeds the {} remaining bytes",
+                    len,
+                    self.trans.len()
+                ),
+            ));
+        }
         // split and freeze it
-        Ok(self.trans.split_to(len as usize))
+        Ok(self.trans.split_to(len))
     }
 
     #[inline]
@@ -700,6 +710,16 @@ impl TInputProtocol for TBinaryProtocol<&mut Bytes> {
     #[inline]
     fn read_faststr(&mut self) -> Result<FastStr, ThriftException> {
         let len = self.trans.read_i32()? as usize;
+        if len > self.trans.len() {
+            return Err(new_protocol_exception(
+                ProtocolExceptionKind::InvalidData,
+                format!(
+                    "length {} exceeds the {} remaining bytes",
+                    len,
+                    self.trans.len()
+                ),
+            ));
+        }
         let bytes = self.trans.split_to(len);
         unsafe { Ok(FastStr::from_bytes_unchecked(bytes)) }
     }
@@ -749,6 +769,16 @@ impl TInputProtocol for TBinaryProtocol<&mut Bytes> {
     #[inline]
     fn read_bytes_vec(&mut self) -> Result<Vec<u8>, ThriftException> {
         let len = self.trans.read_i32()? as usize;
+        if len > self.trans.len() {
+            return Err(new_protocol_exception(
+                ProtocolExceptionKind::InvalidData,
+                format!(
+                    "length {} exceeds the {} remaining bytes",
+                    len,
+                    self.trans.len()
+                ),
+            ));
+        }
         Ok(self.trans.split_to(len).into())
     }
 
